@@ -274,6 +274,7 @@ func opEpoch(g *G) (interface{}, []uint64, int, interface{}) {
 	if err == nil && pan == nil {
 		out["after"] = dumpPop(sc.pop)
 		out["fresh"] = generationFresh(old, sc.pop)
+		out["genesis"] = popGenesisClass(sc.pop)
 		if ok, verr := sc.pop.Verify(); !ok || verr != nil {
 			out["verify"] = errStr(verr)
 		}
@@ -322,6 +323,7 @@ func opSpawn(g *G) (interface{}, []uint64, int, interface{}) {
 			}
 		}
 		out["shared"] = shared
+		out["genesis"] = popGenesisClass(pop)
 	}
 	return map[string]interface{}{"g": before, "opts": dumpEpochOpts(opts), "origin": origin}, stream, consumed, out
 }
